@@ -40,6 +40,9 @@ CHECKS = {
   "C14": dict(level="model_checking", design="3.5, 4 (C14)",
       text="MxResume transcribes the server's bounded session cache (register / resume / update / clear with in-use counts and the replacement list) and stateless tickets, and is model-checked under every history of full handshakes, resumptions with the same or changed parameters, handle edits (truncated / altered id, secret, ticket, foreign key), handle theft, clock ticks, fatal alerts, closes, drops and ticket key rotation for 2 clients; ResumeSound (a completed resumption is justified by an issued, unexpired, not invalidated session state with the same secret and parameters, presented exactly as issued, sealed by a key still held) is an invariant. Random and directed histories of the same operations (plus cache overflow with 31-40 filler sessions and TLS 1.3 PSK resumption) are run on the real library and every completed resumed handshake of a server is judged by MxResume_Trace with the same predicate over fingerprints of secrets, ids, tickets and PSKs.",
       technique="TLA+ spec MxResume checked by TLC + trace validation of resumption histories on the real library (MxResume_Trace, MxSession_Trace)"),
+  "C16": dict(level="model_checking", design="3.3, 4 (C16)",
+      text="MxDtls (two endpoints, flights with message_seq, epochs, per-epoch record acceptance, timer- and repetition-driven retransmission that opens a new epoch for a re-sent Finished, a network that drops / duplicates / reorders within budgets) is model-checked for AppOnce, HsMonotone, DoneMeansPeerFinished and, under weak fairness of delivery and timers, completion. Real DTLS 1.0/1.2 sessions (RSA, ECDHE-RSA, ECDHE-ECDSA, PSK, resumed, client auth, PMTU 512/300 forcing fragmentation) are driven through datagram schedules - exhaustive over {deliver, drop, duplicate}^n for the first datagrams of the short handshakes, random over five decisions, whole-flight losses - followed by healing, application data, replays of every captured record and more application data; every execution is validated by MxDtls_Trace (a protected record passes the record layer once, an application record reaches the application once, handshake state never regresses, both sides complete and all later application records arrive) and by MxSession_Trace.",
+      technique="TLA+ spec MxDtls checked by TLC (safety + liveness under fairness) + trace validation of scheduled DTLS executions (MxDtls_Trace, MxSession_Trace)"),
   "C05": dict(level="model_checking", design="3.6, 4 (C05)",
       text="MxName states the matching rule (exact case-insensitive match per kind, '*' for exactly one left-most label, CN only without supported SAN); TLC tabulates it over a universe of patterns x expected names and checks order independence, CN-only-without-SAN and one-label wildcards as invariants. Real leaf certificates with generated SAN lists (0-3 entries from a pool with wildcards in every position, partial wildcards, case variants, trailing dots, control characters, trailing/double/embedded NULs, e-mail, IP, URI entries; every order of sampled pairs/triples) x CN choices are run through matrixValidateCertsExt for each expected name of a grammar, and every verdict is validated by TLC against Match (soundness; completeness on names without trailing dot).",
       technique="TLA+ spec MxName checked by TLC + validation of the library's verdicts on generated certificates (MxName_Trace)"),
@@ -54,7 +57,9 @@ AUTH_NOTE = ("Trusted base: TLC; OpenSSL (harness/certgen.c) builds each defecti
              "Not covered: revocation (CRL/OCSP), certificates refused by the parser (C03), renegotiation. Quick tier: three modes in full, the others sampled; thorough: all 11 modes in full.")
 RES_NOTE = ("Trusted base: TLC; fingerprints (32-bit FNV) of master secret, session id, ticket, PSK id/key logged by the driver; the driver's virtual clock (gettimeofday, time, clock_gettime wrapped). One-directional: refusing to resume is never an alarm. "
             "Model bounds: 2 clients, table of 1 (quick) or 2 (thorough) entries, 3-4 session states, lifetime 1 tick, 1 edit/theft, one parameter dimension per config. Not modelled: multi-process servers sharing ticket keys, TLS 1.3 external PSKs.")
-NOTES = {"C14": RES_NOTE, "C04": AUTH_NOTE, "C05": NAME_NOTE, "C01": SESSION_NOTE, "C06": SESSION_NOTE, "C15": SESSION_NOTE, "C02": CHAN_NOTE, "C17": CHAN_NOTE, "C03": PKI_NOTE}
+DTLS_NOTE = ("Trusted base: TLC; the driver's queues as the datagram network (no byte is altered); timers fired by the driver for endpoints that have sent a flight and are not complete; record-layer pass events from the guarded hook. "
+             "Model bounds: 2 drops, 2 duplications, 2 retransmissions, 1 application record per side (safety); 2 drops, 3 retransmissions (liveness). Cookie exchange and fragmentation are exercised on the implementation only.")
+NOTES = {"C16": DTLS_NOTE, "C14": RES_NOTE, "C04": AUTH_NOTE, "C05": NAME_NOTE, "C01": SESSION_NOTE, "C06": SESSION_NOTE, "C15": SESSION_NOTE, "C02": CHAN_NOTE, "C17": CHAN_NOTE, "C03": PKI_NOTE}
 
 def main():
     hooks_commits = subprocess.run(["git", "-C", "/repo", "log", "--format=%h %s", "--grep=^verif:"], capture_output=True, text=True).stdout.strip().splitlines()
